@@ -937,6 +937,11 @@ class Builder:
             if e.value:
                 return [(n, 'T')], []
             return [], [(n, 'F')]
+        pe = self._prop_test(e, frame)
+        if pe is not None:
+            # `if self._in_data:` with a property that is one pure test of
+            # the object's own attributes: branch on that test
+            return self._cond(pe, frame)
         if isinstance(e, ast.Call) and self.thread_returns:
             r = self._cond_call(e, frame)
             if r is not None:
@@ -1359,6 +1364,55 @@ class Builder:
                 return p['N'] + ut, p['O'] + uf
             return p['O'] + ut, p['N'] + uf
         return None
+
+    def _prop_test(self, e, frame):
+        """the test expression a read of `self.<property>` stands for: the
+        property's body is `return <test over self.<attrs> and constants>`
+        (same receiver, so the expression reads the same in this frame)"""
+        if not (isinstance(e, ast.Attribute) and isinstance(e.value, ast.Name)
+                and isinstance(e.ctx, ast.Load)):
+            return None
+        fn = frame.ctx.func
+        if fn.cls is None or e.value.id != fn.self_name:
+            return None
+        cq = frame.ctx.self_cls or fn.cls.qname
+        m = None
+        for k in self.p.mro(cq):
+            kc = self.p.classes.get(k)
+            if kc is not None and e.attr in kc.methods:
+                m = kc.methods[e.attr]
+                break
+        if m is None or m.kind != 'property' or not m.params:
+            return None
+        # (a setter of the same name replaces the getter in the table: look
+        # the getter up in the class body)
+        body = [st for st in m.node.body
+                if not (isinstance(st, ast.Expr) and
+                        isinstance(st.value, ast.Constant))]
+        if len(body) != 1 or not isinstance(body[0], ast.Return) or \
+                body[0].value is None:
+            return None
+        v = body[0].value
+        sn = m.params[0]
+        if sn != fn.self_name:
+            return None
+
+        def pure(x):
+            if isinstance(x, ast.Constant):
+                return True
+            if isinstance(x, ast.Attribute):
+                return isinstance(x.value, ast.Name) and x.value.id == sn
+            if isinstance(x, ast.UnaryOp) and isinstance(x.op, ast.Not):
+                return pure(x.operand)
+            if isinstance(x, ast.BoolOp):
+                return all(pure(y) for y in x.values)
+            if isinstance(x, ast.Compare) and len(x.ops) == 1:
+                return pure(x.left) and pure(x.comparators[0])
+            return False
+        if not isinstance(v, (ast.Compare, ast.BoolOp, ast.UnaryOp)) or \
+                not pure(v):
+            return None
+        return v
 
     def _cond_call(self, e: ast.Call, frame):
         """Branch on the result of a call that is inlined: thread each
